@@ -15,19 +15,19 @@ func init() {
 	mk := func(profile, nt string) Plan {
 		return Plan{Profiles: []string{profile}, Quick: 60000, Thorough: 1500000, Level: "exploration", Rule: ruleCommon + nt}
 	}
-	planTable["C01"] = mk("core,query,reset", "the run reached quiescence, compared at least one held resource with what the service announced (oracle C01.a), and a client had received at least one event frame")
-	planTable["C02"] = mk("core", "a client received at least one frame carrying a resource set while it already held other resources")
-	planTable["C03"] = mk("core,query,reset", "at least one holding interval was checked against the service's event stream and a client had received at least one event frame")
-	planTable["C07"] = mk("core,throttle,burst", "a connection sent a request while an earlier request of its own was still unanswered")
+	planTable["C01"] = mk("core,query,reset,locks", "the run reached quiescence, compared at least one held resource with what the service announced (oracle C01.a), and a client had received at least one event frame")
+	planTable["C02"] = mk("core,locks", "a client received at least one frame carrying a resource set while it already held other resources")
+	planTable["C03"] = mk("core,query,reset,locks", "at least one holding interval was checked against the service's event stream and a client had received at least one event frame")
+	planTable["C07"] = mk("core,throttle,burst,locks", "a connection sent a request while an earlier request of its own was still unanswered")
 	planTable["C08"] = mk("core,core,access,limits", "at least two unsubscribe verdicts were compared with the counter model")
-	planTable["C09"] = mk("core,reset", "at least one event subscription was released before the final teardown and the end-of-run leak check ran")
+	planTable["C09"] = mk("core,reset,locks", "at least one event subscription was released before the final teardown and the end-of-run leak check ran")
 	planTable["C04"] = mk("access", "data was handed to a client as the requested resource at least once (oracle C04.a) in a run in which a revocation trigger (token event on a connection with a token, reaccess event, access reset) was delivered")
 	planTable["C05"] = mk("access", "at least one call/new/auth request was judged (oracle C05.a) in a run in which a revocation trigger was delivered")
 	planTable["C06"] = mk("access,reset,query", "at least one revocation trigger was delivered while a client held a settled direct subscription it affects (oracle C06.a evaluated)")
 	planTable["C10"] = mk("access", "a token reset was delivered, or at least two token events were")
 	planTable["C12"] = mk("reset,throttle", "at least one get request was identified with certainty as a system-reset re-fetch and checked against the delivered resets")
 	planTable["C13"] = mk("query", "at least one query event was delivered while a settled direct subscriber held a cached query variant, so that a query request for it was demanded")
-	planTable["C15"] = mk("core", "the run delivered at least one service message to the gateway")
+	planTable["C15"] = mk("core,locks,http", "the run delivered at least one service message to the gateway")
 	planTable["C19"] = mk("throttle", "the number of outstanding governed requests reached the configured limit at least once (reset throttle after a reset at a quiet moment, or reference throttle after a lone subscribe)")
 	planTable["C14"] = mk("http,http,core", "at least one client input that is not a valid request (hostile HTTP path or WebSocket method string) was judged by C14.c; the seam invariant C14.a/b is evaluated on every subject of every run")
 	planTable["C16"] = mk("http", "at least one successful GET/HEAD body was compared with the reference renderer, or one POST answer with the service's result")
